@@ -184,11 +184,10 @@ func (i *interpreter) intercept(caller *frame, callpos token.Pos, fn *ssa.Functi
 			}
 			t := w.declare(nm, sInt)
 			w.assertPC(tAnd(tCmp(">=", t, mkInt64(0)), tCmp("<", t, mkInt64(int64(n)))))
-			conds := make([]*term, n)
-			for k := range conds {
-				conds[k] = tEq(t, mkInt64(int64(k)))
-			}
-			return w.choose(conds, "verifChoose "+nm), true
+			// a fresh variable: every alternative is feasible, no solver call needed
+			k := w.chooseFree(n, "verifChoose "+nm)
+			w.assertPC(tEq(t, mkInt64(int64(k))))
+			return k, true
 		case "verifStr":
 			nm := argStr(args[0])
 			if ri := w.cfg().ReplayInputs; ri != nil {
@@ -608,6 +607,9 @@ func init() {
 		"os.Exit": func(i *interpreter, _ *frame, _ *ssa.Function, a []value) value {
 			panic(targetPanic{iface{i.runtimeErrorString, "os.Exit called"}})
 		},
+
+		// ---- reflect (only for log lines: the Type value is nil and its methods are no-ops) ----
+		"reflect.TypeOf": func(i *interpreter, _ *frame, fn *ssa.Function, a []value) value { return zeroResult(fn) },
 
 		// ---- errors ----
 		"errors.Is": func(i *interpreter, _ *frame, _ *ssa.Function, a []value) value {
